@@ -1941,6 +1941,9 @@ class VCGen:
         saved = s.cur
         s.cur = callee_view
         try:
+            for al, src in saved.get('alias_for_asserts', {}).items():      # caller locals visible to call_asserts under an alias
+                if src in st.env:
+                    cal.env[al] = st.env[src]
             for j, r in enumerate(saved.get('call_asserts', {}).get(q.split('.', 1)[1], [])):
                 # assertions of the CALLER about the arguments it passes (and the state in which it calls)
                 g = s.spec_eval(r, cal, 1)
